@@ -16,6 +16,7 @@ import (
 	"os"
 	"path/filepath"
 	"sort"
+	"sync/atomic"
 
 	"github.com/tailscale/setec/acl"
 	"github.com/tailscale/setec/audit"
@@ -540,6 +541,10 @@ type HTTPTarget struct {
 	LastBody   []byte
 	// Headers are added to every request (e.g. forwarding headers a client is free to send).
 	Headers map[string]string
+	// WhoIsDown: while set, the identity lookup fails for every request (the local tailscaled is away).
+	WhoIsDown atomic.Bool
+	// Chunked: request bodies are sent without a declared length (Transfer-Encoding: chunked).
+	Chunked bool
 }
 
 func (t *HTTPTarget) client(c CallerM) setec.Client {
@@ -547,6 +552,9 @@ func (t *HTTPTarget) client(c CallerM) setec.Client {
 		r.RemoteAddr = t.AddrOf(c)
 		for k, v := range t.Headers {
 			r.Header.Set(k, v)
+		}
+		if t.Chunked {
+			r.ContentLength, r.TransferEncoding = -1, []string{"chunked"}
 		}
 		w := httptest.NewRecorder()
 		t.Mux.ServeHTTP(w, r)
